@@ -2,6 +2,7 @@
 EXTENDS RRTStar, Json, MCCommon
 
 MC_RewireStrict == EnvBool("V_REWIRE_STRICT", TRUE)
+MC_NearFirst == EnvBool("V_NEAR_FIRST", FALSE)
 
 Emit ==
   (MC_Emit /\ pc' = "idle" /\ res'.kind # "none" /\ (pc = "loop" \/ ncalls' # ncalls)) =>
